@@ -8,6 +8,9 @@ CHECKS = {
  "C01": dict(engine="E1", technique="exhaustive enumeration of selector pairs x probe configurations on a small recording, plus all 65536 sample values per gain class",
              text="63 configurations (8 probe kinds + nidq, both metadata encodings, sorted/unsorted, bin/cbin, AP/LF, non-identity site order, non-uniform gains) x every int / slice (start, stop in [-n-1, n+1], steps +-1..3) / list selector pair of a 4-sample recording are read through the real Reader and compared with NumPy indexing of the reference calibrated, permuted array; thorough runs the full product (98M reads), quick the full x core and core x full products on primary configurations.",
              note="layout decided with one separating content (the gather does not branch on values); values decided by running all 65536 int16 values through every gain class; 1.5 float32 ulp tolerance", ref="3/C01"),
+ "C03": dict(engine="E1", technique="exhaustive enumeration of all int16 values x gain settings, all 4^6 shank maps, and a (window, length) box around every window seam",
+             text="A recording in which every channel runs through all 65536 int16 values is split for 9 (range, max-int) settings x 2 probe types and every shank file is compared byte for byte with the original columns (+sync), with and without the integrity post-check; all 4096 assignments of six sites to four shanks are split, checked and reassembled with NP2Reconstructor (bytes by sha1, metadata field by field); window sizes 588..1200 x recording lengths around every window seam; compressed source, compressed shank files and compressed reconstruction.",
+             note="6-8 site recordings; lengths >= 300 samples", ref="3/C03"),
  "C05": dict(engine="E1", technique="exhaustive enumeration of the sinusoid basis x ADC tables, pulse x table x filter grids, every (2nd) spike depth, all 3^6 groupings",
              text="The ADC alignment is run on every below-Nyquist DFT bin x 2 phases x 4 ADC tables (basis of a linear operator); destripe/destripe_lfp on 8 (4) disjoint band-limited pulses x 2 amplitudes x 4 tables x k-filter/CAR must attenuate by >= 40 dB; a model spike at every 2nd (thorough: every) depth x NP1/NP2 x both filters must keep >= 90 %; outside-brain rows must be untouched and must not influence inside rows for top blocks 0..40; car leaves zero median/mean per group for all 3^6 groupings; kfilt/fk/car with collections equal each group alone with the same settings; agc data x gain = input.",
              note="spike/label backgrounds are fixed seeded content; stripes periodic in the window with a centred envelope", ref="3/C05"),
@@ -33,6 +36,9 @@ CHECKS = {
  "C10": dict(engine="E1", technique="exhaustive enumeration of all 65536 sync words and of all binary event trains up to a length bound",
              text="All 65536 words go through split_sync in several shapes and through Reader.read_sync for imec/nidq, bin/cbin recordings; every 0/1 train of length 2..14 (16) goes through fronts/rises/falls in 1-D and 2-D along both axes, every train over {0,1,2} with step thresholds and analog mode, and all trains are written on each of the 16 lines of a recording and recovered end to end.",
              note="thresholded analog lines compared on windows with a known floor (percentile removal is data dependent by design)", ref="3/C10"),
+ "C12": dict(engine="E1", technique="exhaustive enumeration of recording lengths around every window seam x five window sizes x two layouts",
+             text="For NP2.1 and NP2.4 layouts and every recording length within 14 samples of a window seam (thorough: every length 300..3100) the real converter is run with five window sizes; LF length ceil(n/12), sync = every 12th word, pairwise window independence within 1 LSB, equality with low-pass(whole trace)[::12] within 1 LSB away from the edges, 2500 Hz / written channel counts in the metadata and the reader's shape are checked.",
+             note="AP content is fixed seeded broadband; 30 LF samples at each file edge excluded from the whole-trace comparison", ref="3/C12"),
  "C13": dict(engine="E1+E3", technique="exhaustive enumeration of peak channels/positions/spike trains, and of every execution order of the chunk tasks under a controlled executor with a write log",
              text="Array level: every peak channel of 24-site NP1/NP2 geometries x 3 radii x every spike position that fits. Table level: every assignment of 7 margin spike times to two units x max_wf 1-4 x 3 seeds. File level: the real extract_wfs_cbin runs with joblib.Parallel replaced by an executor that runs the chunk tasks in a chosen order and with the shared traces memmap behind a proxy that logs writes and forbids reads; for 5 chunk sizes every permutation of the tasks (<=5 chunks; rotations above) is executed, rows are compared with the source windows, table/traces/channels/templates row by row, files across chunk sizes and orders byte for byte, and the loader against the saved rows. One free-running real-joblib run is a conformance point.",
              note="file level uses preprocess_steps=[] (exact equality); each task has exactly one shared write, so task permutations are all interleavings of shared operations", ref="3/C13"),
